@@ -233,3 +233,44 @@ Proof.
     destruct (sc_all_match_m every_method i l); reflexivity.
   - unfold p2_in, s2. cbn [py_bind key_of]. rewrite Hd. reflexivity.
 Qed.
+
+(* ------------------------------------------------------------------------------------------ the status test
+   StatusResponse.status_ok (inherited by AuthnResponse and every other response class; harness/c06.py:status_slice
+   refuses a class that overrides it) cut in front of the table lookup: [src2_status_ok_head] = every statement before
+   `err_cls = STATUSCODE2EXCEPTION.get(err_code, StatusError)`, ending in `return err_code`.  It answers True exactly
+   when there is no Status or the top-level code IS the Success URN - nothing else counts as success, no second-level
+   code, no attribute of the object, of its class or of the module is consulted -, and otherwise hands the second-level
+   code (None when absent) to the table lookup, whose result is raised (the shape of the tail is checked by the cut; the
+   table itself is coq/gen/C06Tables.v, regenerated from the live dict, = Model.status_class). *)
+Definition enc_code (v : string) (inner : pyval) : pyval :=
+  PObj [("__class__", PStr "StatusCode"); ("value", PStr v); ("status_code", inner)].
+Definition enc_second (second : option string) : pyval := match second with Some c => enc_code c PNone | None => PNone end.
+Definition enc_message (msg : option string) : pyval :=
+  match msg with Some m => PObj [("__class__", PStr "StatusMessage"); ("text", PStr m)] | None => PNone end.
+Definition enc_status (top : string) (second msg : option string) : pyval :=
+  PObj [("__class__", PStr "Status"); ("status_code", enc_code top (enc_second second)); ("status_message", enc_message msg)].
+(* the response object as far as status_ok may look at it: self.response.status *)
+Definition enc_status_self (st : pyval) : pyval :=
+  PObj [("__class__", PStr "AuthnResponse"); ("response", PObj [("__class__", PStr "Response"); ("status", st)])].
+Definition enc_optstr (o : option string) : pyval := match o with Some s => PStr s | None => PNone end.
+
+Theorem src_status_ok_head top second msg :
+  src2_status_ok_head (enc_status_self (enc_status top second msg))
+  = if String.eqb top VerifGen.C06Tables.STATUS_SUCCESS then PBool true else enc_optstr second.
+Proof.
+  unfold src2_status_ok_head, enc_status_self, enc_status, enc_code.
+  destruct second as [c|], msg as [m|]; cbn.
+  all: change "urn:oasis:names:tc:SAML:2.0:status:Success" with VerifGen.C06Tables.STATUS_SUCCESS.
+  all: destruct (String.eqb top VerifGen.C06Tables.STATUS_SUCCESS); try reflexivity.
+  destruct (is_empty c); reflexivity.
+Qed.
+
+Lemma src_status_ok_head_no_status : src2_status_ok_head (enc_status_self PNone) = PBool true.
+Proof. vm_compute. reflexivity. Qed.
+
+(* in the model's words: the status test of Model.accept & co passes exactly when the source's does, and the class
+   raised otherwise is the table's entry for the code the source looks up *)
+Corollary src_status_ok_is_model x msg :
+  src2_status_ok_head (enc_status_self (enc_status (status_top x) (status_second x) msg))
+  = if negb (String.eqb (status_top x) VerifGen.C06Tables.STATUS_SUCCESS) then enc_optstr (status_second x) else PBool true.
+Proof. rewrite src_status_ok_head. destruct (String.eqb (status_top x) VerifGen.C06Tables.STATUS_SUCCESS); reflexivity. Qed.
